@@ -57,6 +57,7 @@ from whatshap.utils import plural_s, warn_once
 from whatshap.cli import CommandLineError, log_memory_usage, PhasedInputReader
 from whatshap.merge import ReadMerger, DoNothingReadMerger, ReadMergerBase
 from whatshap.types import PhasingAlgorithm
+from whatshap import _veriftrace
 
 __author__ = "Murray Patterson, Alexander Schönhuth, Tobias Marschall, Marcel Martin"
 
@@ -614,6 +615,27 @@ def run_whatshap(
                         superreads_list,
                     )
                     log_component_stats(overall_components, len(accessible_positions))
+
+                if _veriftrace.enabled():
+                    _veriftrace.trace_phase_instance(
+                        chromosome,
+                        family,
+                        trios,
+                        numeric_sample_ids,
+                        readsets,
+                        all_reads,
+                        accessible_positions,
+                        homozygous_positions,
+                        phasable_variant_table,
+                        distrust_genotypes,
+                        recombination_costs,
+                        dp_table,
+                        superreads_list,
+                        transmission_vector,
+                        overall_components,
+                        max_coverage_per_sample,
+                        algorithm,
+                    )
 
                 if recombination_list_filename:
                     assert transmission_vector is not None
